@@ -82,3 +82,24 @@ Proof.
   destruct (I.sign_strict (I.sub prec (gI t S n N) margin)) eqn:E; try discriminate;
   specialize (C (Xsub (Xg t S n N) Xmargin) K); destruct C as [C1 C2]; (eexists; split; [exact C1 | exact C2]).
 Qed.
+
+(* ------------------------------------------------------------------ reweighting-factor reduction (read_rwms):
+   product over the factors of the source average of exp(-x), enclosed with interval arithmetic *)
+Definition mean_exp_neg (xs : list Q) : I.type :=
+  I.div prec (List.fold_left (fun acc x => I.add prec acc (I.exp prec (I.neg (qI x)))) xs (zI 0)) (zI (Z.of_nat (List.length xs))).
+Definition rw_factor (xss : list (list Q)) : I.type :=
+  List.fold_left (fun acc xs => I.mul prec acc (mean_exp_neg xs)) xss (zI 1).
+(* |value in the interval - v| < tol, decided on the enclosure *)
+Definition within (i : I.type) (v tol : Q) : bool :=
+  match I.sign_strict (I.add prec (I.sub prec i (qI v)) (qI tol)), I.sign_strict (I.sub prec (I.sub prec i (qI v)) (qI tol)) with
+  | Xgt, Xlt => true
+  | _, _ => false
+  end.
+Definition XmeanExpNeg (xs : list Q) : ExtendedR :=
+  Xdiv (List.fold_left (fun acc x => Xadd acc (Xexp (Xneg (Xq x)))) xs (Xz 0)) (Xz (Z.of_nat (List.length xs))).
+Lemma mean_exp_neg_correct xs : contains (I.convert (mean_exp_neg xs)) (XmeanExpNeg xs).
+Proof.
+  unfold mean_exp_neg, XmeanExpNeg. apply I.div_correct; [|apply zI_correct].
+  generalize (zI_correct 0). generalize (zI 0) (Xz 0). induction xs as [|x xs IH]; intros i0 x0 H0; [exact H0|].
+  cbn [List.fold_left]. apply IH. apply I.add_correct; [exact H0|]. apply I.exp_correct. apply I.neg_correct. apply qI_correct.
+Qed.
